@@ -106,3 +106,282 @@ package chord
 //@ lemma bv_ring_next_id: forall n uint64 :: ((n + 1) & (1<<48 - 1)) < 1<<48
 //@ lemma bv_ring_hop_decreases: forall n, f, key uint64 :: (n < 1<<48 && f < 1<<48 && key < 1<<48 && between48(n, f, key, false)) ==> dist48(f + 1, key) < dist48(n + 1, key)
 //@ lemma bv_ring_successor_hop_decreases: forall n, s, key uint64 :: (n < 1<<48 && s < 1<<48 && key < 1<<48 && !between48(n, key, s, true)) ==> dist48(s + 1, key) < dist48(n + 1, key)
+
+// ---- C15: the retrying KV wrapper (wiring; the retry loop itself is the library's)
+
+//@ func (n *retryableWrapper) retryOptions(ctx context.Context) (r []retry.Option)
+//@   opt frame=off
+//@   ensures policy: len(r) == 6 && r[0] == retry.Context(ctx) && r[1] == retry.Attempts(n.retryAttempts) && r[2] == retry.Delay(n.retryInterval) && r[4] == retry.RetryIf(ErrorIsRetryable) && r[5] == retry.LastErrorOnly(true)
+
+// retryWitness(err): Skolem function for "some registered retryable error matches err" (defined by the index the loop stops at)
+//@ spec retryWitness(err error) int
+//@ func ErrorIsRetryable(err error) (r bool)
+//@   pure
+//@   opt frame=off
+//@   ghost w int = -1
+//@   at return#1: ghost w := rangeindex
+//@   ensures local-true-only-for-a-registered-retryable-error: r ==> (0 <= w && w < len(retryableErrs) && errors.Is(err, retryableErrs[w]))
+//@   at return#1: assume skolem-definition-of-the-witness: retryWitness(err) == rangeindex
+//@   ensures true-only-if-some-registered-error-matches: r ==> (0 <= retryWitness(err) && retryWitness(err) < len(retryableErrs) && errors.Is(err, retryableErrs[retryWitness(err)]))
+//@   ensures false-only-if-none-matches: !r ==> (forall i int :: 0 <= i && i < len(retryableErrs) ==> !errors.Is(err, retryableErrs[i]))
+//@   loop e: invariant idx: -1 <= rangeindex && rangeindex < len(retryableErrs)
+//@   loop e: invariant none-so-far: forall i int :: 0 <= i && i <= rangeindex ==> !errors.Is(err, retryableErrs[i])
+
+//@ func (n *retryableWrapper) Put(ctx, key, value) (err error)
+//@   safety off
+//@   opt frame=off
+//@   ghost opts []retry.Option
+//@   ghost g_err error
+//@   at call retryOptions#1: assert policy-for-this-context: callarg1 == ctx
+//@   at after call retryOptions#1: ghost opts := callresult
+//@   at call Do#1: assert uses-the-retry-policy: sameBacking(callarg1, opts) && len(callarg1) == len(opts)
+//@   at after call Do#1: ghost g_err := callresult
+//@   ensures returns-what-retry-returns: err == g_err
+
+//@ func (n *retryableWrapper) Put$1() (err error)
+//@   safety off
+//@   opt frame=off
+//@   ghost g_err error
+//@   at call Put#1: assert same-arguments: callarg0 == ctx && callarg1 == key && callarg2 == value
+//@   at after call Put#1: ghost g_err := callresult
+//@   ensures forwards-the-wrapped-node-result: err == g_err
+
+//@ func (n *retryableWrapper) Get(ctx, key) (value []byte, err error)
+//@   safety off
+//@   opt frame=off
+//@   ghost opts []retry.Option
+//@   ghost g_value []byte
+//@   ghost g_err error
+//@   at call retryOptions#1: assert policy-for-this-context: callarg1 == ctx
+//@   at after call retryOptions#1: ghost opts := callresult
+//@   at call DoWithData#1: assert uses-the-retry-policy: sameBacking(callarg1, opts) && len(callarg1) == len(opts)
+//@   at after call DoWithData#1: ghost g_value := callresult0
+//@   at after call DoWithData#1: ghost g_err := callresult1
+//@   ensures returns-what-retry-returns: value == g_value && err == g_err
+
+//@ func (n *retryableWrapper) Get$1() (value []byte, err error)
+//@   safety off
+//@   opt frame=off
+//@   ghost g_value []byte
+//@   ghost g_err error
+//@   at call Get#1: assert same-arguments: callarg0 == ctx && callarg1 == key
+//@   at after call Get#1: ghost g_value := callresult0
+//@   at after call Get#1: ghost g_err := callresult1
+//@   ensures forwards-the-wrapped-node-result: value == g_value && err == g_err
+
+//@ func (n *retryableWrapper) Delete(ctx, key) (err error)
+//@   safety off
+//@   opt frame=off
+//@   ghost opts []retry.Option
+//@   ghost g_err error
+//@   at call retryOptions#1: assert policy-for-this-context: callarg1 == ctx
+//@   at after call retryOptions#1: ghost opts := callresult
+//@   at call Do#1: assert uses-the-retry-policy: sameBacking(callarg1, opts) && len(callarg1) == len(opts)
+//@   at after call Do#1: ghost g_err := callresult
+//@   ensures returns-what-retry-returns: err == g_err
+
+//@ func (n *retryableWrapper) Delete$1() (err error)
+//@   safety off
+//@   opt frame=off
+//@   ghost g_err error
+//@   at call Delete#1: assert same-arguments: callarg0 == ctx && callarg1 == key
+//@   at after call Delete#1: ghost g_err := callresult
+//@   ensures forwards-the-wrapped-node-result: err == g_err
+
+//@ func (n *retryableWrapper) PrefixAppend(ctx, prefix, child) (err error)
+//@   safety off
+//@   opt frame=off
+//@   ghost opts []retry.Option
+//@   ghost g_err error
+//@   at call retryOptions#1: assert policy-for-this-context: callarg1 == ctx
+//@   at after call retryOptions#1: ghost opts := callresult
+//@   at call Do#1: assert uses-the-retry-policy: sameBacking(callarg1, opts) && len(callarg1) == len(opts)
+//@   at after call Do#1: ghost g_err := callresult
+//@   ensures returns-what-retry-returns: err == g_err
+
+//@ func (n *retryableWrapper) PrefixAppend$1() (err error)
+//@   safety off
+//@   opt frame=off
+//@   ghost g_err error
+//@   at call PrefixAppend#1: assert same-arguments: callarg0 == ctx && callarg1 == prefix && callarg2 == child
+//@   at after call PrefixAppend#1: ghost g_err := callresult
+//@   ensures forwards-the-wrapped-node-result: err == g_err
+
+//@ func (n *retryableWrapper) PrefixList(ctx, prefix) (children [][]byte, err error)
+//@   safety off
+//@   opt frame=off
+//@   ghost opts []retry.Option
+//@   ghost g_children [][]byte
+//@   ghost g_err error
+//@   at call retryOptions#1: assert policy-for-this-context: callarg1 == ctx
+//@   at after call retryOptions#1: ghost opts := callresult
+//@   at call DoWithData#1: assert uses-the-retry-policy: sameBacking(callarg1, opts) && len(callarg1) == len(opts)
+//@   at after call DoWithData#1: ghost g_children := callresult0
+//@   at after call DoWithData#1: ghost g_err := callresult1
+//@   ensures returns-what-retry-returns: children == g_children && err == g_err
+
+//@ func (n *retryableWrapper) PrefixList$1() (children [][]byte, err error)
+//@   safety off
+//@   opt frame=off
+//@   ghost g_children [][]byte
+//@   ghost g_err error
+//@   at call PrefixList#1: assert same-arguments: callarg0 == ctx && callarg1 == prefix
+//@   at after call PrefixList#1: ghost g_children := callresult0
+//@   at after call PrefixList#1: ghost g_err := callresult1
+//@   ensures forwards-the-wrapped-node-result: children == g_children && err == g_err
+
+//@ func (n *retryableWrapper) PrefixContains(ctx, prefix, child) (ok bool, err error)
+//@   safety off
+//@   opt frame=off
+//@   ghost opts []retry.Option
+//@   ghost g_ok bool
+//@   ghost g_err error
+//@   at call retryOptions#1: assert policy-for-this-context: callarg1 == ctx
+//@   at after call retryOptions#1: ghost opts := callresult
+//@   at call DoWithData#1: assert uses-the-retry-policy: sameBacking(callarg1, opts) && len(callarg1) == len(opts)
+//@   at after call DoWithData#1: ghost g_ok := callresult0
+//@   at after call DoWithData#1: ghost g_err := callresult1
+//@   ensures returns-what-retry-returns: ok == g_ok && err == g_err
+
+//@ func (n *retryableWrapper) PrefixContains$1() (ok bool, err error)
+//@   safety off
+//@   opt frame=off
+//@   ghost g_ok bool
+//@   ghost g_err error
+//@   at call PrefixContains#1: assert same-arguments: callarg0 == ctx && callarg1 == prefix && callarg2 == child
+//@   at after call PrefixContains#1: ghost g_ok := callresult0
+//@   at after call PrefixContains#1: ghost g_err := callresult1
+//@   ensures forwards-the-wrapped-node-result: ok == g_ok && err == g_err
+
+//@ func (n *retryableWrapper) PrefixRemove(ctx, prefix, child) (err error)
+//@   safety off
+//@   opt frame=off
+//@   ghost opts []retry.Option
+//@   ghost g_err error
+//@   at call retryOptions#1: assert policy-for-this-context: callarg1 == ctx
+//@   at after call retryOptions#1: ghost opts := callresult
+//@   at call Do#1: assert uses-the-retry-policy: sameBacking(callarg1, opts) && len(callarg1) == len(opts)
+//@   at after call Do#1: ghost g_err := callresult
+//@   ensures returns-what-retry-returns: err == g_err
+
+//@ func (n *retryableWrapper) PrefixRemove$1() (err error)
+//@   safety off
+//@   opt frame=off
+//@   ghost g_err error
+//@   at call PrefixRemove#1: assert same-arguments: callarg0 == ctx && callarg1 == prefix && callarg2 == child
+//@   at after call PrefixRemove#1: ghost g_err := callresult
+//@   ensures forwards-the-wrapped-node-result: err == g_err
+
+//@ func (n *retryableWrapper) Acquire(ctx, lease, ttl) (token uint64, err error)
+//@   safety off
+//@   opt frame=off
+//@   ghost opts []retry.Option
+//@   ghost g_token uint64
+//@   ghost g_err error
+//@   at call retryOptions#1: assert policy-for-this-context: callarg1 == ctx
+//@   at after call retryOptions#1: ghost opts := callresult
+//@   at call DoWithData#1: assert uses-the-retry-policy: sameBacking(callarg1, opts) && len(callarg1) == len(opts)
+//@   at after call DoWithData#1: ghost g_token := callresult0
+//@   at after call DoWithData#1: ghost g_err := callresult1
+//@   ensures returns-what-retry-returns: token == g_token && err == g_err
+
+//@ func (n *retryableWrapper) Acquire$1() (token uint64, err error)
+//@   safety off
+//@   opt frame=off
+//@   ghost g_token uint64
+//@   ghost g_err error
+//@   at call Acquire#1: assert same-arguments: callarg0 == ctx && callarg1 == lease && callarg2 == ttl
+//@   at after call Acquire#1: ghost g_token := callresult0
+//@   at after call Acquire#1: ghost g_err := callresult1
+//@   ensures forwards-the-wrapped-node-result: token == g_token && err == g_err
+
+//@ func (n *retryableWrapper) Renew(ctx, lease, ttl, prevToken) (newToken uint64, err error)
+//@   safety off
+//@   opt frame=off
+//@   ghost opts []retry.Option
+//@   ghost g_newToken uint64
+//@   ghost g_err error
+//@   at call retryOptions#1: assert policy-for-this-context: callarg1 == ctx
+//@   at after call retryOptions#1: ghost opts := callresult
+//@   at call DoWithData#1: assert uses-the-retry-policy: sameBacking(callarg1, opts) && len(callarg1) == len(opts)
+//@   at after call DoWithData#1: ghost g_newToken := callresult0
+//@   at after call DoWithData#1: ghost g_err := callresult1
+//@   ensures returns-what-retry-returns: newToken == g_newToken && err == g_err
+
+//@ func (n *retryableWrapper) Renew$1() (newToken uint64, err error)
+//@   safety off
+//@   opt frame=off
+//@   ghost g_newToken uint64
+//@   ghost g_err error
+//@   at call Renew#1: assert same-arguments: callarg0 == ctx && callarg1 == lease && callarg2 == ttl && callarg3 == prevToken
+//@   at after call Renew#1: ghost g_newToken := callresult0
+//@   at after call Renew#1: ghost g_err := callresult1
+//@   ensures forwards-the-wrapped-node-result: newToken == g_newToken && err == g_err
+
+//@ func (n *retryableWrapper) Release(ctx, lease, token) (err error)
+//@   safety off
+//@   opt frame=off
+//@   ghost opts []retry.Option
+//@   ghost g_err error
+//@   at call retryOptions#1: assert policy-for-this-context: callarg1 == ctx
+//@   at after call retryOptions#1: ghost opts := callresult
+//@   at call Do#1: assert uses-the-retry-policy: sameBacking(callarg1, opts) && len(callarg1) == len(opts)
+//@   at after call Do#1: ghost g_err := callresult
+//@   ensures returns-what-retry-returns: err == g_err
+
+//@ func (n *retryableWrapper) Release$1() (err error)
+//@   safety off
+//@   opt frame=off
+//@   ghost g_err error
+//@   at call Release#1: assert same-arguments: callarg0 == ctx && callarg1 == lease && callarg2 == token
+//@   at after call Release#1: ghost g_err := callresult
+//@   ensures forwards-the-wrapped-node-result: err == g_err
+
+//@ func (n *retryableWrapper) ListKeys(ctx, prefix) (keys []*protocol.KeyComposite, err error)
+//@   safety off
+//@   opt frame=off
+//@   ghost opts []retry.Option
+//@   ghost g_keys []*protocol.KeyComposite
+//@   ghost g_err error
+//@   at call retryOptions#1: assert policy-for-this-context: callarg1 == ctx
+//@   at after call retryOptions#1: ghost opts := callresult
+//@   at call DoWithData#1: assert uses-the-retry-policy: sameBacking(callarg1, opts) && len(callarg1) == len(opts)
+//@   at after call DoWithData#1: ghost g_keys := callresult0
+//@   at after call DoWithData#1: ghost g_err := callresult1
+//@   ensures returns-what-retry-returns: keys == g_keys && err == g_err
+
+//@ func (n *retryableWrapper) ListKeys$1() (keys []*protocol.KeyComposite, err error)
+//@   safety off
+//@   opt frame=off
+//@   ghost g_keys []*protocol.KeyComposite
+//@   ghost g_err error
+//@   at call ListKeys#1: assert same-arguments: callarg0 == ctx && callarg1 == prefix
+//@   at after call ListKeys#1: ghost g_keys := callresult0
+//@   at after call ListKeys#1: ghost g_err := callresult1
+//@   ensures forwards-the-wrapped-node-result: keys == g_keys && err == g_err
+
+// ---- C14: error registry and round trip
+
+//@ macro registryOK() bool = (has(errorStrMap, "chord/membership: node cannot handle join request at the moment") && errorStrMap["chord/membership: node cannot handle join request at the moment"] == ErrJoinInvalidState && cast(ErrJoinInvalidState, "*Error") != nil && cast(ErrJoinInvalidState, "*Error").msg == "chord/membership: node cannot handle join request at the moment" && dyntype(ErrJoinInvalidState, "*Error")) && (has(errorStrMap, "chord/membership: failed to transfer keys to joiner node") && errorStrMap["chord/membership: failed to transfer keys to joiner node"] == ErrJoinTransferFailure && cast(ErrJoinTransferFailure, "*Error") != nil && cast(ErrJoinTransferFailure, "*Error").msg == "chord/membership: failed to transfer keys to joiner node" && dyntype(ErrJoinTransferFailure, "*Error")) && (has(errorStrMap, "chord/membership: join request was routed to the wrong successor node") && errorStrMap["chord/membership: join request was routed to the wrong successor node"] == ErrJoinInvalidSuccessor && cast(ErrJoinInvalidSuccessor, "*Error") != nil && cast(ErrJoinInvalidSuccessor, "*Error").msg == "chord/membership: join request was routed to the wrong successor node" && dyntype(ErrJoinInvalidSuccessor, "*Error")) && (has(errorStrMap, "chord/membership: node cannot handle leave request at the moment") && errorStrMap["chord/membership: node cannot handle leave request at the moment"] == ErrLeaveInvalidState && cast(ErrLeaveInvalidState, "*Error") != nil && cast(ErrLeaveInvalidState, "*Error").msg == "chord/membership: node cannot handle leave request at the moment" && dyntype(ErrLeaveInvalidState, "*Error")) && (has(errorStrMap, "chord/membership: failed to transfer keys to successor node") && errorStrMap["chord/membership: failed to transfer keys to successor node"] == ErrLeaveTransferFailure && cast(ErrLeaveTransferFailure, "*Error") != nil && cast(ErrLeaveTransferFailure, "*Error").msg == "chord/membership: failed to transfer keys to successor node" && dyntype(ErrLeaveTransferFailure, "*Error")) && (has(errorStrMap, "chord/kv: processing node no longer has ownership over requested key") && errorStrMap["chord/kv: processing node no longer has ownership over requested key"] == ErrKVStaleOwnership && cast(ErrKVStaleOwnership, "*Error") != nil && cast(ErrKVStaleOwnership, "*Error").msg == "chord/kv: processing node no longer has ownership over requested key" && dyntype(ErrKVStaleOwnership, "*Error")) && (has(errorStrMap, "chord/kv: kv transfer inprogress, state may be outdated") && errorStrMap["chord/kv: kv transfer inprogress, state may be outdated"] == ErrKVPendingTransfer && cast(ErrKVPendingTransfer, "*Error") != nil && cast(ErrKVPendingTransfer, "*Error").msg == "chord/kv: kv transfer inprogress, state may be outdated" && dyntype(ErrKVPendingTransfer, "*Error")) && (has(errorStrMap, "chord: node is not part of the chord ring") && errorStrMap["chord: node is not part of the chord ring"] == ErrNodeGone && cast(ErrNodeGone, "*Error") != nil && cast(ErrNodeGone, "*Error").msg == "chord: node is not part of the chord ring" && dyntype(ErrNodeGone, "*Error")) && (has(errorStrMap, "chord: node is not running") && errorStrMap["chord: node is not running"] == ErrNodeNotStarted && cast(ErrNodeNotStarted, "*Error") != nil && cast(ErrNodeNotStarted, "*Error").msg == "chord: node is not running" && dyntype(ErrNodeNotStarted, "*Error")) && (has(errorStrMap, "chord: node has no successor, possibly invalid chord ring") && errorStrMap["chord: node has no successor, possibly invalid chord ring"] == ErrNodeNoSuccessor && cast(ErrNodeNoSuccessor, "*Error") != nil && cast(ErrNodeNoSuccessor, "*Error").msg == "chord: node has no successor, possibly invalid chord ring" && dyntype(ErrNodeNoSuccessor, "*Error")) && (has(errorStrMap, "chord: node cannot be nil") && errorStrMap["chord: node cannot be nil"] == ErrNodeNil && cast(ErrNodeNil, "*Error") != nil && cast(ErrNodeNil, "*Error").msg == "chord: node cannot be nil" && dyntype(ErrNodeNil, "*Error")) && (has(errorStrMap, "chord/membership: joining node has duplicate ID as its successor") && errorStrMap["chord/membership: joining node has duplicate ID as its successor"] == ErrDuplicateJoinerID && cast(ErrDuplicateJoinerID, "*Error") != nil && cast(ErrDuplicateJoinerID, "*Error").msg == "chord/membership: joining node has duplicate ID as its successor" && dyntype(ErrDuplicateJoinerID, "*Error")) && (has(errorStrMap, "chord/kv: simple key was concurrently modified") && errorStrMap["chord/kv: simple key was concurrently modified"] == ErrKVSimpleConflict && cast(ErrKVSimpleConflict, "*Error") != nil && cast(ErrKVSimpleConflict, "*Error").msg == "chord/kv: simple key was concurrently modified" && dyntype(ErrKVSimpleConflict, "*Error")) && (has(errorStrMap, "chord/kv: child already exists under prefix") && errorStrMap["chord/kv: child already exists under prefix"] == ErrKVPrefixConflict && cast(ErrKVPrefixConflict, "*Error") != nil && cast(ErrKVPrefixConflict, "*Error").msg == "chord/kv: child already exists under prefix" && dyntype(ErrKVPrefixConflict, "*Error")) && (has(errorStrMap, "chord/kv: lease has not expired or was acquired by a different requester") && errorStrMap["chord/kv: lease has not expired or was acquired by a different requester"] == ErrKVLeaseConflict && cast(ErrKVLeaseConflict, "*Error") != nil && cast(ErrKVLeaseConflict, "*Error").msg == "chord/kv: lease has not expired or was acquired by a different requester" && dyntype(ErrKVLeaseConflict, "*Error")) && (has(errorStrMap, "chord/kv: lease has expired with the given token") && errorStrMap["chord/kv: lease has expired with the given token"] == ErrKVLeaseExpired && cast(ErrKVLeaseExpired, "*Error") != nil && cast(ErrKVLeaseExpired, "*Error").msg == "chord/kv: lease has expired with the given token" && dyntype(ErrKVLeaseExpired, "*Error")) && (has(errorStrMap, "chord/kv: lease ttl must be greater than a second") && errorStrMap["chord/kv: lease ttl must be greater than a second"] == ErrKVLeaseInvalidTTL && cast(ErrKVLeaseInvalidTTL, "*Error") != nil && cast(ErrKVLeaseInvalidTTL, "*Error").msg == "chord/kv: lease ttl must be greater than a second" && dyntype(ErrKVLeaseInvalidTTL, "*Error")) && (has(errorStrMap, "chord/kv: calculated hash is different from storage") && errorStrMap["chord/kv: calculated hash is different from storage"] == ErrKVHashFnChanged && cast(ErrKVHashFnChanged, "*Error") != nil && cast(ErrKVHashFnChanged, "*Error").msg == "chord/kv: calculated hash is different from storage" && dyntype(ErrKVHashFnChanged, "*Error"))
+//@ macro retryableOK() bool = len(retryableErrs) == 8 && retryableErrs[0] == context.DeadlineExceeded && retryableErrs[1] == ErrJoinInvalidState && retryableErrs[2] == ErrJoinTransferFailure && retryableErrs[3] == ErrJoinInvalidSuccessor && retryableErrs[4] == ErrLeaveInvalidState && retryableErrs[5] == ErrLeaveTransferFailure && retryableErrs[6] == ErrKVStaleOwnership && retryableErrs[7] == ErrKVPendingTransfer
+
+//@ func init()
+//@   safety off
+//@   opt frame=off
+//@   ensures registry-maps-every-message-to-its-error: registryOK()
+//@   ensures retryable-set: retryableOK()
+
+//@ func (e *Error) Error() (r string)
+//@   pure
+//@   ensures r == e.msg
+
+//@ func ErrorMapper(err error) (r error)
+//@   pure
+//@   safety off
+//@   opt frame=off
+//@   ensures nil-stays-nil: err == nil ==> r == nil
+//@   ensures twirp-errors-map-by-message: (err != nil && implements(err, twirp.Error)) ==> r == (has(errorStrMap, cast(err, twirp.Error).Msg()) ? errorStrMap[cast(err, twirp.Error).Msg()] : err)
+//@   ensures other-errors-map-by-text: (err != nil && !implements(err, twirp.Error)) ==> r == (has(errorStrMap, err.Error()) ? errorStrMap[err.Error()] : err)
+
+//@ func errorDef(str string, retryable bool) (r error)
+//@   inline
